@@ -1,5 +1,5 @@
 (* Proofs/C06_AllPsm.v - the histories of C06_all extended by path_segments_mut sessions (all five editor
-   operations, arguments outside F-C06-7), by set_path on the authority-less '/'-led layout (C06_SpliceNoAuth.v) and by the mutators whose canonicity C02 proves outside its known step
+   operations, any &str arguments: F-C06-7 is fixed), by set_path on the authority-less '/'-led layout (C06_SpliceNoAuth.v) and by the mutators whose canonicity C02 proves outside its known step
    classes (C02_Reach4.canon_op3: set_ip_host, set_host(Some), set_scheme, quirks protocol, set_path / quirks
    pathname with ANY &str on URLs with an authority).  ReachC6p: every record of such a history is Canon, hence
    wfh, auth_end_ok, all_calls (C06_all) - and psm_calls: a session on such a record (with an authority) returns a
@@ -63,7 +63,7 @@ Inductive ReachC6p : url -> Prop :=
     inp_starts_with_char 47 rest = false -> set_path dbg u (47 :: rest) = Some u' -> nlen (ser u') <= U32_MAX_P ->
     C06_HostNone.path_starts_with_2slash u' = false -> ReachC6p u'
 | P_psm u ops u' :
-    ReachC6p u -> has_authority_b u = true -> Forall psm_op_usv ops -> Forall psm_op_plain ops ->
+    ReachC6p u -> has_authority_b u = true -> Forall psm_op_usv ops ->
     path_segments_session dbg u ops = Some (u', SOk) -> nlen (ser u') <= U32_MAX_P -> ReachC6p u'.
 
 Lemma ReachC6_C6p u : ReachC6 dbg hp hpo hd u -> ReachC6p u.
@@ -113,7 +113,7 @@ Proof.
   induction 1 as [ovr input u Hu Hn Hov Hp | ovr b input u Hr IH Hu Ht Hov Hp | u o u' Hr IH Ht Ha Hk Ho Hb
                  | u ops u' Hr IH Hops Hs Hb | u x u' Hr IH Hau Hx Hq Hpa E Hb | u x u' Hr IH Hau Hxa E Hemp Hb
                  | u rest u' Hr IH Hna Hsl Hps Hx Hq Hn2 E Hb H2
-                 | u ops u' Hr IH Hau Hu Hpl E Hb].
+                 | u ops u' Hr IH Hau Hu E Hb].
   - exact (parse_Canon dbg hp hpo hd HRT ovr input u HAb Hu Hn Hov Hp).
   - exact (join_tail_Canon dbg hp hpo hd HRT ovr b input u IH Hu Ht Hov Hp).
   - exact (canon_step3 u o u' IH Ht Ha Hk Ho Hb).
@@ -121,12 +121,12 @@ Proof.
   - exact (C06_SplicePath.set_path_Canon dbg hp hpo hd HRT u x u' IH Hau Hx Hq Hpa E Hb).
   - exact (set_host_Canon dbg hp hpo hd HRT HAb u x u' IH Hau Hxa E Hemp Hb).
   - exact (set_path_noauth_Canon dbg hp hpo hd u rest u' IH Hna Hsl Hps Hx Hq Hn2 E Hb H2).
-  - exact (psm_Canon dbg hp hpo hd HRT u ops u' IH Hau Hu Hpl E Hb).
+  - exact (psm_Canon dbg hp hpo hd HRT u ops u' IH Hau Hu E Hb).
 Qed.
 
 (* what a path_segments_mut session does to a canonical record with an authority *)
 Definition psm_calls (u : url) : Prop :=
-  forall ops u', has_authority_b u = true -> Forall psm_op_usv ops -> Forall psm_op_plain ops ->
+  forall ops u', has_authority_b u = true -> Forall psm_op_usv ops ->
     path_segments_session dbg u ops = Some (u', SOk) -> nlen (ser u') <= U32_MAX_P ->
     Canon u' /\ u' = with_path u (session_text (st_of u) (path_bytes u) ops)
     /\ path u = Some (path_bytes u) /\ path u' = Some (session_text (st_of u) (path_bytes u) ops)
@@ -134,12 +134,12 @@ Definition psm_calls (u : url) : Prop :=
 
 Theorem psm_calls_canon u : Canon u -> psm_calls u.
 Proof.
-  intros C ops u' Hau Hu Hpl E Hb.
-  pose proof (psm_Canon dbg hp hpo hd HRT u ops u' C Hau Hu Hpl E Hb) as C'.
+  intros C ops u' Hau Hu E Hb.
+  pose proof (psm_Canon dbg hp hpo hd HRT u ops u' C Hau Hu E Hb) as C'.
   destruct (Canon_wfh dbg hp hpo hd HRT u C) as [W HT]. destruct (Canon_wfh dbg hp hpo hd HRT u' C') as [W' _].
   destruct (Canon_auth_cases hp hpo hd u C Hau) as (st & sch & ui & h & pt & p & q & f & Eu & K & Hc).
   assert (u' = with_path u (session_text (st_of u) (path_bytes u) ops) /\ path_bytes u' = session_text (st_of u) (path_bytes u) ops) as [X1 X2].
-  { subst u. destruct (psm_auth dbg hp hpo hd HRT st sch ui h pt p q f ops u' K Hc Hu Hpl E) as (p' & Hc' & Eu' & Et).
+  { subst u. destruct (psm_auth dbg hp hpo hd HRT st sch ui h pt p q f ops u' K Hc Hu E) as (p' & Hc' & Eu' & Et).
     assert (st_of (auth_url hd sch ui h pt p q f) = st) as Est.
     { unfold st_of. rewrite (auth_stype hd). exact (ak_st _ _ _ _ _ _ _ _ _ _ _ K). }
     rewrite Est, (auth_path_bytes hd). split.
